@@ -17,11 +17,28 @@ EXP_LOG = []          # list of np.ndarray(object) of FV: the argument of every 
 
 
 class FB:
-    """symbolic boolean cell"""
+    """symbolic boolean cell; used as a python condition it forks the path (engine.explore)"""
     __slots__ = ("b",)
 
     def __init__(self, b):
         self.b = b
+
+    def __bool__(self):
+        from . import engine
+        return engine.fork(self.b)
+
+    def __invert__(self):
+        return FB(z3.Not(self.b))
+
+    def __and__(self, o):
+        return FB(z3.And(self.b, o.b if isinstance(o, FB) else z3.BoolVal(bool(o))))
+
+    __rand__ = __and__
+
+    def __or__(self, o):
+        return FB(z3.Or(self.b, o.b if isinstance(o, FB) else z3.BoolVal(bool(o))))
+
+    __ror__ = __or__
 
 
 class FV:
@@ -143,6 +160,8 @@ def _wrap(r):
 _UF = {
     np.add: lambda a, b: FV.lift(a) + b, np.subtract: lambda a, b: FV.lift(a) - b, np.multiply: lambda a, b: FV.lift(a) * b,
     np.negative: lambda a: -FV.lift(a), np.maximum: fv_max, np.minimum: fv_min, np.isfinite: fv_isfinite,
+    np.logical_not: lambda a: ~a, np.logical_and: lambda a, b: a & b, np.logical_or: lambda a, b: a | b,
+    np.isinf: lambda a: FB(z3.fpIsInf(FV.lift(a).t)), np.isnan: lambda a: FB(z3.fpIsNaN(FV.lift(a).t)),
     np.log: _opaque, np.true_divide: _opaque, np.sqrt: _opaque,
 }
 
@@ -196,6 +215,18 @@ class FPArray(np.ndarray):
             a = args[0]
             axis = kwargs.get("axis", args[1] if len(args) > 1 else None)
             return _reduce(_opaque, a, axis, kwargs.get("keepdims", False))
+        if func in (np.all, np.any):
+            cells = [c for c in _plain(args[0]).ravel()]
+            if kwargs.get("axis", args[1] if len(args) > 1 else None) is not None:
+                raise NotImplementedError("FPArray: all/any with an axis")
+            bs = [c.b if isinstance(c, FB) else z3.BoolVal(bool(c)) for c in cells]
+            return FB(z3.And(*bs) if func is np.all else z3.Or(*bs))
+        if func in (np.zeros_like, np.ones_like):
+            a = _plain(args[0])
+            r = np.empty(a.shape, dtype=object)
+            for i in np.ndindex(*a.shape):
+                r[i] = FV(z3.FPVal(0.0 if func is np.zeros_like else 1.0, F64))
+            return _wrap(r)
         if func is np.where:
             c, a, b = (_plain(x) for x in args)
             return _wrap(np.asarray(np.frompyfunc(fv_where, 3, 1)(c, a, b), dtype=object))
